@@ -134,7 +134,11 @@ def run_ridge_case(case):
         np.random.seed(12345)
         with contextlib.redirect_stdout(io.StringIO()), warnings.catch_warnings(), np.errstate(all="ignore"):
             warnings.simplefilter("ignore")
-            pb, _, _ = eng.parse(render(case["mh"], case["mw"], case["ridges"], case["ep"]), ds)
+            # (decoded five times from the SAME array: decoding must not depend on what the array went through in an earlier decode)
+            same_maps = render(case["mh"], case["mw"], case["ridges"], case["ep"])
+            for _ in range(5):        # (an in-place blur of a strong synthetic ridge needs a few passes to move an end point)
+                np.random.seed(12345)
+                pb, _, _ = eng.parse(same_maps, ds)
         rec["plines"] = [{"pts": [[_milli(x), _milli(y)] for x, y in np.asarray(b, dtype=float)]} for b in pb]
         for b, h, t in zip(b_list, h_list, t_list):
             b = np.asarray(b, dtype=float)
